@@ -149,13 +149,13 @@ PROPS = {
     },
     'C16': {
         'theorems': 'Properties/C16', 'scenarios': ['flow-renewed-versions'], 'obligation_files': ['Proofs/Refinement'],
-        'profiles': [SAO, SAOLONG],
+        'profiles': [SAO, SAOLONG, P('genesis', 12, 96, 120)],
         'projection': ['order.OrderCount', 'order.ShardCount', 'order.Order+keys', 'order.Shard+keys', 'model.Metadata#3', 'model.Metadata#6',
                        'model.Metadata#9', 'model.Metadata#15', 'model.Metadata#16'],
-        'monitors': ['ids.', 'ver.'], 'families': ['sao', 'block'],
+        'monitors': ['ids.', 'ver.'], 'families': ['sao', 'block', 'genesis'],
     },
     'C17': {
-        'theorems': 'Properties/C17', 'obligation_files': ['Proofs/Refinement'],
+        'theorems': 'Properties/C17', 'scenarios': ['flow-did-self-join'], 'obligation_files': ['Proofs/Refinement'],
         'profiles': [DID],
         'projection': ['did.'], 'monitors': ['did.'], 'families': ['did'],
     },
@@ -173,6 +173,6 @@ PROPS = {
     'C20': {
         'theorems': 'Properties/C20', 'scenarios': ['flow-offline-super', 'flow-stake-before-pledge', 'flow-slashed-validator'], 'obligation_files': ['Obligations/ObShape'],
         'profiles': [STAKING, NODE],
-        'projection': ['node.Node#5', 'node.Node#6'], 'monitors': ['super.'], 'families': ['staking', 'node', 'block'],
+        'projection': ['node.Node#5', 'node.Node#6'], 'monitors': ['super.', 'proc.success_leaves_no_residue'], 'families': ['staking', 'node', 'block'],
     },
 }
